@@ -21,7 +21,7 @@ Theorem C08_loaders_return_the_stored_value :
     wt t v = true -> exhausted_in t v = false ->
     ser_top pf h t v = (evs, SDone) ->
     base mod max_unit t = 0 ->
-    (l = LMem -> align_of t <= 64) ->
+    (l = LMem -> rust_align t <= 64) ->
     exists e, load l base h t (store_file (evs, SDone)) =
                 Ok (e, ndrop (nlen (bytes_of evs)) (region l (bytes_of evs)), evs_len evs) /\
               erase e = v.
@@ -30,10 +30,10 @@ Proof. exact load_stored_file. Qed.
 (* load_mem can only guarantee 64-byte alignment: a type whose native alignment is larger is
    refused up front with AlignmentError, whatever the file holds *)
 Theorem C08_load_mem_refuses_overaligned_types :
-  forall base h t file, 64 < align_of t -> load LMem base h t file = Err AlignmentError.
+  forall base h t file, 64 < rust_align t -> load LMem base h t file = Err AlignmentError.
 Proof.
   intros base h t file H. cbn [load]. unfold mem_precheck.
-  destruct (N.ltb_spec 64 (align_of t)) as [_|Hle]; [reflexivity|lia].
+  destruct (N.ltb_spec 64 (rust_align t)) as [_|Hle]; [reflexivity|lia].
 Qed.
 
 (* For ANY file (stored by this library or not) that one of the three region-keeping loaders
